@@ -20,6 +20,10 @@ From LZ4V Require Import Proofs.FastCap Proofs.InplaceMargin.
 From LZ4V Require Import Model.DecFast Proofs.DecFastRefine Proofs.DecFastTop.
 From LZ4V Require Import Proofs.DecFootprint.
 From LZ4V Require Import Model.DecInplace Proofs.DecInplaceStep Proofs.DecInplaceRun Proofs.DecInplaceTop.
+From LZ4V Require Import Proofs.DecSession.
+From LZ4V Require Import Model.DecRingWrap Proofs.DecRingMin.
+From LZ4V Require Import Proofs.DecSessionFast.
+From LZ4V Require Import Proofs.DecRingWrapStep.
 Import ListNotations.
 Local Open Scope Z_scope.
 
@@ -285,3 +289,136 @@ Theorem C05_inplace_margin32_refuted :
   /\ (let '(r, k, img) := f16_run true 32 146 in r <> 114 /\ k = true).
 Proof. exact f16_margin32_refuted. Qed.
 Print Assumptions C05_inplace_margin32_refuted.
+
+(* Across calls: a SESSION of LZ4_decompress_safe_continue calls over one arena (Proofs/DecSession.v).
+   The decoder remembers two segments (prefix, external dictionary = the prefix at the last jump).
+   [session_geom] is the caller's geometry contract, a predicate on the list of (destination,
+   capacity, decoded size) alone (the bookkeeping evolves as a function of these: [sess_next]):
+   at every call (G1) the segment(s) the selected mode designates are long enough to hold the last
+   min(64 KB, total) decoded bytes - prefix alone, or prefix >= 65535 bytes, or prefix + genuine
+   external dictionary at a contiguous continuation; prefix alone at a jump - and (G2) the capacity
+   handed to the decoder does not overlap the still-needed part of those segments.  [sess_inv]
+   (what the bookkeeping designates holds the end of the history) is the invariant.  If block k is
+   strictly valid w.r.t. the last 64 KB of the concatenated earlier contents, every call returns
+   |D_k| and leaves D_k at its destination, empty blocks included ([expected]); in-bounds accesses
+   for any session are C02_continue_safe.  (G2) is also the condition under which the model
+   (dictionary = snapshot at call time) is faithful to the C code (live memory); the documented
+   minimal ring buffer LZ4_DECODER_RING_BUFFER_SIZE violates it - see Proofs/DecSession.v. *)
+Theorem C05_continue_session :
+  forall (calls : list scall) (fastloop : bool) (am : mem) (st : sdstate) (H : list Z) (pok : bool),
+    sess_inv am st H pok -> session_geom st pok (Z.of_nat (length H)) calls -> session_valid H calls ->
+    session_run fastloop am st calls = expected calls.
+Proof. exact continue_session. Qed.
+Print Assumptions C05_continue_session.
+
+(* the states LZ4_setStreamDecode produces satisfy the invariant: no dictionary / saved dictionary *)
+Theorem C05_session_init :
+  (forall am dictionary, sess_inv am (setStreamDecode dictionary 0) [] true) /\
+  (forall am dictionary (Hd : list Z), src_at am dictionary Hd -> 0 < Z.of_nat (length Hd) ->
+     sess_inv am (setStreamDecode dictionary (Z.of_nat (length Hd))) Hd true).
+Proof. exact (conj init_inv init_inv_dict). Qed.
+Print Assumptions C05_session_init.
+
+(* scheme (a): every block decoded right after the previous one *)
+Theorem C05_continue_session_contiguous :
+  forall (calls : list scall) (fastloop : bool) (am : mem) (dest : Z),
+    contig_calls dest calls -> session_valid [] calls ->
+    session_run fastloop am (setStreamDecode 0 0) calls = expected calls.
+Proof. exact continue_session_contiguous. Qed.
+Print Assumptions C05_continue_session_contiguous.
+
+(* scheme (b): ring buffer [rb, rb+R) with R >= 65536 + 2*maxBlock, capacity maxBlock per call, restart at rb
+   when fewer than maxBlock bytes remain *)
+Theorem C05_continue_session_ring :
+  forall (rb R M : Z), 0 <= M -> 65536 + 2 * M <= R ->
+  forall (calls : list scall) (fastloop : bool) (am : mem),
+    ring_calls rb R M 0 calls -> session_valid [] calls ->
+    session_run fastloop am (setStreamDecode 0 0) calls = expected calls.
+Proof. exact continue_session_ring. Qed.
+Print Assumptions C05_continue_session_ring.
+
+(* What the session contract excludes, 1: more than two live segments.  lz4.h's "the last 64KB of
+   previously decoded data must remain available and unmodified at the memory position where they were
+   decoded" is necessary, not sufficient: three blocks decoded into three separate buffers, nothing
+   overwritten, the third (strictly valid w.r.t. the 40 bytes before it) references the first - the
+   call fails with -5 (the real decoder too); decoded contiguously the same blocks succeed. *)
+Theorem C05_continue_three_segments_refuted :
+  session_valid [] (seg3_calls 1000 10000 20000)
+  /\ (forall fastloop, map fst (session_run fastloop empty (setStreamDecode 0 0) (seg3_calls 1000 10000 20000)) = [20; 20; -5])
+  /\ (forall fastloop, session_run fastloop empty (setStreamDecode 0 0) (seg3_calls 1000 1020 1040) = expected (seg3_calls 1000 1020 1040)).
+Proof. exact three_segments_refuted. Qed.
+Print Assumptions C05_continue_three_segments_refuted.
+
+(* What the session contract excludes, 2 (FINDING): the documented minimal ring buffer.  Ring of
+   LZ4_DECODER_RING_BUFFER_SIZE(1024) = 65536 + 14 + 1024 bytes, first lap 65551 bytes (1023 remain, the
+   caller wraps); the wrap block (33 literals, match of 8 at offset 65535, 40 literals) is strictly
+   valid; in Model.DecRingWrap (wrap call with dictionary and destination in one memory, dictionary
+   loads from the current contents) the call returns 81 with all accesses in bounds, the matched bytes
+   are right with the safe loop and WRONG with LZ4_FAST_DEC_LOOP (LZ4_wildCopy32 stored [33,64) before the
+   match loaded lap bytes [49,57)).  Same result on the real decoder (c05.py family `ringmin`). *)
+Theorem C05_ring_min_refuted :
+  65536 + 14 + 1024 - 65551 < 1024
+  /\ strict_valid (lastn (Z.to_nat 65536) rm_lap) rm_block = Some rm_expected
+  /\ rm_run false = (81, true, [49; 50; 51; 52; 53; 54; 55; 56])
+  /\ rm_run true = (81, true, [173; 174; 175; 160; 161; 162; 163; 164]).
+Proof. exact ring_min_refuted. Qed.
+Print Assumptions C05_ring_min_refuted.
+
+(* The same for the deprecated LZ4_decompress_fast_continue (Model.DecFast; valid blocks only - the C code is
+   undefended): same invariant and per-call contract (capacity = originalSize = |D_k|), bookkeeping
+   [fast_next]; every call returns the number of source bytes |B_k| with all accesses in bounds and leaves
+   D_k at its destination, empty blocks included (fix F19). *)
+Theorem C05_fast_continue_session :
+  forall (calls : list scall) (am : mem) (st : sdstate) (H : list Z) (pok : bool),
+    sess_inv am st H pok -> fsession_geom st pok (Z.of_nat (length H)) calls -> session_valid H calls ->
+    fsession_run am st calls = fexpected calls.
+Proof. exact fast_continue_session. Qed.
+Print Assumptions C05_fast_continue_session.
+
+Theorem C05_fast_continue_session_contiguous :
+  forall (calls : list scall) (am : mem) (dest : Z),
+    contig_calls dest calls -> session_valid [] calls ->
+    fsession_run am (setStreamDecode 0 0) calls = fexpected calls.
+Proof. exact fast_continue_session_contiguous. Qed.
+Print Assumptions C05_fast_continue_session_contiguous.
+
+Theorem C05_fast_continue_session_ring :
+  forall (rb R M : Z), 0 <= M -> 65536 + 2 * M <= R ->
+  forall (calls : list scall) (am : mem),
+    ring_calls rb R M 0 calls -> session_valid [] calls ->
+    fsession_run am (setStreamDecode 0 0) calls = fexpected calls.
+Proof. exact fast_continue_session_ring. Qed.
+Print Assumptions C05_fast_continue_session_ring.
+
+(* the repaired header: LZ4_DECODER_RING_BUFFER_SIZE(n) - 65536 - n read from lz4.h by the translator *)
+Theorem C05_ring_margin_const : 29 <= DECODER_RING_MARGIN.
+Proof. exact ring_margin_const. Qed.
+Print Assumptions C05_ring_margin_const.
+
+(* The repaired ring buffer, live memory (Model.DecRingWrap: dictionary loads from the current contents of the
+   ring).  (1) For EVERY input: once the finished lap has at least 65535 + 31 bytes the wrap call equals
+   Model.Dec's decoder reading a snapshot of the dictionary taken before the call - a dictionary load of a
+   match at output position o reads ring positions >= o + (lap - 65535) >= o + 31, and nothing at or above
+   op + 31 has been stored at a loop boundary / above (end of literals) + 31 after the literal phase
+   (DecFootprint).  (2) Hence for every margin c >= 29 (C05_ring_margin_const: the header's is), every maxBlock
+   and every lap that makes the caller wrap (65536 + c + maxBlock - lap < maxBlock), every strictly valid block
+   decodes at the ring start to its specified content, fast loop on or off.  NOT covered (remains): the blocks
+   after the first one of a lap (prefix + external dictionary both inside the ring, live) - for those the
+   session theorem C05_continue_session_ring needs a ring of 65536 + 2*maxBlock bytes. *)
+Theorem C05_ring_wrap_eq :
+  forall (fastloop : bool) (srcm : mem) (srcSize cap E : Z) (m0 : mem),
+    (forall a, 0 <= get srcm a < 256) -> 65535 + 31 <= E ->
+    decompress_ring_wrap fastloop srcm srcSize cap E m0
+    = dec_generic fastloop false UsingExtDict srcm srcSize cap 0 0 m0 E m0.
+Proof. exact ring_wrap_eq. Qed.
+Print Assumptions C05_ring_wrap_eq.
+
+Theorem C05_ring_wrap_block :
+  forall (fastloop : bool) (c M : Z) (lap B D : list Z) (srcm m0 : mem) (cap : Z),
+    29 <= c -> 65536 + c + M - Z.of_nat (length lap) < M ->
+    strict_valid (lastn (Z.to_nat 65536) lap) B = Some D -> bytes B -> src_at srcm 0 B ->
+    (forall a, 0 <= get srcm a < 256) -> src_at m0 0 lap -> Z.of_nat (length D) <= cap ->
+    let '(r, m, k) := decompress_ring_wrap fastloop srcm (Z.of_nat (length B)) cap (Z.of_nat (length lap)) m0 in
+    r = Z.of_nat (length D) /\ forall i, 0 <= i < Z.of_nat (length D) -> get m i = nth (Z.to_nat i) D 0.
+Proof. exact ring_wrap_block. Qed.
+Print Assumptions C05_ring_wrap_block.
